@@ -125,7 +125,7 @@ func colValues(qf qframe.QFrame, c genCol) []interface{} {
 
 func aggCase(r *hlib.Rng, s *hlib.Suite) {
 	qf, cols := genFrame(r, nil)
-	qf, hist := derive(r, qf, cols, s)
+	qf, cols, hist := deriveCols(r, qf, cols, s)
 	malformed := r.Chance(1, 5)
 	in := qframe.VerifDump(qf)
 	// grouping columns: a random subset in random order (possibly none)
@@ -216,10 +216,7 @@ func aggCase(r *hlib.Rng, s *hlib.Suite) {
 						entries = append(entries, "("+cellList(kind, gv)+", "+exp+")")
 					}
 				}
-				if len(entries) == 0 {
-					return "AggOpen"
-				}
-				return "(AggTable " + hlib.List(dedup(entries)) + ")"
+				return "(AggBuiltin " + hlib.Str(bn) + " " + hlib.List(dedup(entries)) + ")"
 			}
 		default: // user function: pure and order sensitive; the expected value is computed from the group's values in frame order
 			pureI := func(x []int) int {
@@ -302,10 +299,34 @@ func aggCase(r *hlib.Rng, s *hlib.Suite) {
 					}
 					entries = append(entries, "("+cellList(kind, gv)+", "+exp+")")
 				}
-				if len(entries) == 0 {
-					return "AggOpen"
+				return "(AggUser " + map[string]string{"int": "TInt", "float": "TFloat", "bool": "TBool", "string": "TString"}[kind] + " " + hlib.List(dedup(entries)) + ")"
+			}
+			if malformed && r.Chance(1, 3) {
+				// a function of another element type, or no function at all
+				switch r.Intn(3) {
+				case 0:
+					if kind == "int" {
+						fn = pureF
+						coq = func() string { return "(AggUser TFloat [])" }
+					} else {
+						fn = pureI
+						coq = func() string { return "(AggUser TInt [])" }
+					}
+					descr = "userfn of another type"
+				case 1:
+					if kind == "bool" {
+						fn = func(x []*string) *string { return nil }
+						coq = func() string { return "(AggUser TString [])" }
+					} else {
+						fn = pureB
+						coq = func() string { return "(AggUser TBool [])" }
+					}
+					descr = "userfn of another type"
+				default:
+					fn = 42
+					coq = func() string { return "AggOther" }
+					descr = "not a function"
 				}
-				return "(AggTable " + hlib.List(dedup(entries)) + ")"
 			}
 		}
 		col := c.name
@@ -364,5 +385,28 @@ func aggCase(r *hlib.Rng, s *hlib.Suite) {
 		as[i] = "(" + hlib.Str(a.a.Column) + ", " + hlib.Str(asName) + ", " + a.coq() + ")"
 	}
 	_ = types.Int
+	defer func() {
+		// the aggregate result is an ordinary frame: replacing one of its columns must hit that column
+		if out.Err != nil || len(od.Columns) == 0 || out.Len() == 0 {
+			return
+		}
+		target := od.Columns[len(od.Columns)-1]
+		if target.Kind != "int" || hasDupNames(od) {
+			return
+		}
+		rec := []string{}
+		fn := func(x int) int { y := x*3 + 1; rec = append(rec, "("+cInt(x)+", "+cInt(y)+")"); return y }
+		desc2 := map[string]interface{}{"op": "apply", "instructions": []string{target.Name + " := fn1(" + target.Name + ")"},
+			"derivation": append(append([]string{}, hist...), fmt.Sprintf("groupby(%v)+aggregate(%v)", keyCols, descs)), "props": []string{"C06", "C10", "C04"}}
+		od2, ok := runOp(s, out, desc2, func() qframe.QFrame {
+			return out.Apply(qframe.Instruction{Fn: fn, DstCol: target.Name, SrcCol1: target.Name})
+		})
+		if !ok {
+			return
+		}
+		s.Count("aggregate-then-apply")
+		instr := "(mkInstr (F1 TInt TInt " + hlib.List(dedup(rec)) + ") " + hlib.Str(target.Name) + " " + hlib.Str(target.Name) + " " + hlib.Str("") + ")"
+		s.Add(fmt.Sprintf("FApply %s [] %s %s", coqFrame(od), hlib.List([]string{instr}), coqFrame(od2)), desc2, true)
+	}()
 	s.Add(fmt.Sprintf("FAggregate %s %s %s %s %s", coqFrame(in), strList(keyCols), hlib.List(gs), hlib.List(as), coqFrame(od)), desc, qf.Len() > 0 && len(groups) > 1)
 }
